@@ -90,6 +90,8 @@ pub async fn start(world: Arc<World>, script: HashMap<String, Vec<Outcome>>, def
                             let (code, delay, close) = match &outcome {
                                 Outcome::Status(c) => (*c as i64, 0, false),
                                 Outcome::Delayed { delay, status } => (*status as i64, *delay, false),
+                                // "hold": never answer (the exchange stays open); anything else: drop the connection
+                                Outcome::Named(n) if n == "hold" => (-2, 0, false),
                                 Outcome::Named(_) => (-1, 0, true),
                             };
                             world.ev(
@@ -105,6 +107,9 @@ pub async fn start(world: Arc<World>, script: HashMap<String, Vec<Outcome>>, def
                             seen.fetch_add(1, Ordering::SeqCst);
                             if delay > 0 {
                                 tokio::time::sleep(Duration::from_millis(delay)).await;
+                            }
+                            if code == -2 {
+                                std::future::pending::<()>().await;
                             }
                             if close {
                                 // an error from the service makes hyper drop the connection
